@@ -830,6 +830,10 @@ def run(ctx: Ctx):
                         ionos[int(rng.integers(len(ionos)))]))
     for t, (H, b, io) in enumerate(configs):
         run_chain(ctx, w, H, b, io, n, t)
+    # square batches: exactly as many events as the band has bins (an axis told by its length would be ambiguous there)
+    for (lo_, hi_) in [(30, 300), (30, 80), (300, 1000)][: (3 if ctx.thorough else 2)]:
+        run_chain(ctx, w, float(rng.choice([33.0, 525.0])), (lo_, hi_), ionos[0], (hi_ - lo_) // 10, 9000 + lo_)
+        ctx.count("square_batches")
     ctx.extra["configurations"] = len(configs)
     # ---- batches in which EVERY decay is outside [0, 10] km (single events, all above, both sides): one zero row per event with
     # one entry per frequency bin, and a finite (zero) SNR
